@@ -419,7 +419,7 @@ static void genColumns(ColumnsCase& c, int nech, int ncolMin, int ncolMax, int n
 {
   c.nech = nech;
   c.rank = G::pct(30);
-  int ncol = G::sz(ncolMin, ncolMax);
+  int ncol = (ncolMin == 0 && G::pct(6)) ? 0 : G::sz(std::max(1, ncolMin), ncolMax) - ((ncolMin == 0 && G::pct(20)) ? 1 : 0);
   std::set<int> usedUnique;
   for (int k = 0; k < ncol; k++)
   {
@@ -515,7 +515,7 @@ struct DbCase
 static DbCase genDb()
 {
   DbCase c;
-  int nech = G::sz(0, 8);
+  int nech = G::pct(5) ? 0 : G::sz(1, 8);
   genColumns(c.cols, nech, 0, 6, G::pick<int>({0, 20, 50}));
   c.fo = genFOpt();
   return c;
@@ -853,5 +853,312 @@ static void runDbGraph(const DbGraphCase& c, Ctx& ctx)
   ctx.sig = h.h;
 }
 VERIF_SUB(dbgraph, DbGraphCase, genDbGraph, runDbGraph);
+
+// ====================================================================== meshes ===========
+struct MeshCase
+{
+  int kind = 0; // 0 MeshETurbo, 1 MeshEStandard, 2 MeshSpherical
+  GridGeom g;   // turbo
+  bool polarized = false;
+  int mode = 1;
+  std::vector<int> sel; // turbo: empty or one flag per node
+  int ndim = 2;         // standard / spherical
+  std::vector<double> apices; // by column (napices * ndim)
+  std::vector<int> meshes;    // by column (nmeshes * (ndim+1))
+  FOpt fo;
+  template<class A> void io(A& a)
+  {
+    a("kind", kind)("g", g)("polarized", polarized)("mode", mode)("sel", sel)("ndim", ndim)("apices", apices)("meshes", meshes)("fo", fo);
+  }
+  int ncorner() const { return ndim + 1; }
+  int napices() const { return ndim > 0 ? (int)apices.size() / ndim : 0; }
+  int nmeshes() const { return (int)meshes.size() / ncorner(); }
+};
+static void genTurboPart(MeshCase& c, bool allowMask)
+{
+  c.g = genGeom(1, 3, 2, 4);
+  c.polarized = G::b();
+  c.mode = G::i(0, 1);
+  if (allowMask && G::pct(50))
+  {
+    int n = c.g.ntot();
+    for (int i = 0; i < n; i++) c.sel.push_back(G::pct(75) ? 1 : 0);
+    // keep at least one complete cell: all nodes of the first cell active
+    int nx0 = c.g.nx[0], nx1 = c.g.ndim() > 1 ? c.g.nx[1] : 1;
+    for (int k = 0; k < (1 << c.g.ndim()); k++)
+    {
+      int i0 = k & 1, i1 = (k >> 1) & 1, i2 = (k >> 2) & 1;
+      c.sel[(size_t)(i0 + nx0 * (i1 + nx1 * i2))] = 1;
+    }
+  }
+}
+static void genStdPart(MeshCase& c, bool spherical)
+{
+  c.ndim = spherical ? 2 : G::i(1, 3);
+  int nap = G::sz(c.ndim + 1, 9);
+  int nm = G::sz(1, 8);
+  std::vector<std::vector<double>> col((size_t)c.ndim);
+  for (int d = 0; d < c.ndim; d++)
+    for (int i = 0; i < nap; i++)
+    {
+      double v;
+      if (spherical) v = (d == 0) ? G::u(-180., 180.) : G::u(-89., 89.);
+      else
+      {
+        v = genVal(0);
+        if (std::fabs(v) > 1e9) v = G::r(-1000, 1000, 8);
+      }
+      c.apices.push_back(v);
+    }
+  // meshes by column: corner r of mesh m at [r * nm + m]; distinct apices within a mesh; apex 0 is used
+  std::vector<std::vector<int>> M;
+  for (int m = 0; m < nm; m++)
+  {
+    std::vector<int> p = G::perm(nap);
+    p.resize((size_t)c.ndim + 1);
+    if (m == 0 && std::find(p.begin(), p.end(), 0) == p.end()) p[0] = 0; // numbering starts at 0 (1 means "old style" to the library)
+    M.push_back(p);
+  }
+  for (int r = 0; r <= c.ndim; r++)
+    for (int m = 0; m < nm; m++) c.meshes.push_back(M[(size_t)m][(size_t)r]);
+}
+static MeshCase genMesh()
+{
+  MeshCase c;
+  c.kind = G::i(0, 2);
+  if (c.kind == 0) genTurboPart(c, true);
+  else genStdPart(c, c.kind == 2);
+  c.fo = genFOpt();
+  return c;
+}
+static VectorDouble selVD(const std::vector<int>& sel)
+{
+  VectorDouble v;
+  for (int s : sel) v.push_back((double)s);
+  return v;
+}
+// getters common to all meshes
+static bool cmpAMesh(const std::string& cls, const AMesh& x, const AMesh& y, Ctx& ctx)
+{
+  CHECK_EQ_INT(cls, "ndim", x.getNDim(), y.getNDim());
+  CHECK_EQ_INT(cls, "napices", x.getNApices(), y.getNApices());
+  CHECK_EQ_INT(cls, "nmeshes", x.getNMeshes(), y.getNMeshes());
+  CHECK_EQ_INT(cls, "napexpermesh", x.getNApexPerMesh(), y.getNApexPerMesh());
+  int ndim = x.getNDim(), nc = x.getNApexPerMesh();
+  for (int im = 0; im < x.getNMeshes(); im++)
+    for (int r = 0; r < nc; r++) CHECK_EQ_INT(cls, "apex", x.getApex(im, r), y.getApex(im, r));
+  for (int ia = 0; ia < x.getNApices(); ia++)
+    for (int d = 0; d < ndim; d++)
+    {
+      double a = x.getApexCoor(ia, d), b = y.getApexCoor(ia, d);
+      // turbo apices are computed from the grid geometry: allow the accumulated rounding of nx*dx
+      double scale = std::max(std::fabs(a), std::fabs(b));
+      if (!eqv(a, b) && std::fabs(a - b) > 1e-13 * std::max(scale, 1e-300))
+      {
+        ctx.fail(cls + ":query:apex-coordinate", fmt("apex %d axis %d: %.17g before, %.17g after reload", ia, d, a, b));
+        return false;
+      }
+    }
+  for (int im = 0; im < x.getNMeshes(); im++)
+  {
+    double a = x.getMeshSize(im), b = y.getMeshSize(im);
+    if (!eqv(a, b, 1e-9) && std::fabs(a - b) > 1e-9 * std::fabs(a))
+    {
+      // the size is a determinant of coordinate differences: cancellation amplifies the 1e-15 of the format
+      ctx.label("mesh-size-ill-conditioned");
+    }
+  }
+  // bounding box (stored for the turbo meshing, derived from the apices otherwise)
+  for (int d = 0; d < ndim; d++)
+  {
+    VectorDouble ex = x.getExtrema(d), ey = y.getExtrema(d);
+    if (!sameVecD(cls, "extrema", ex, ey, ctx, ":query:", 1e-13)) return false;
+  }
+  return true;
+}
+static bool cmpTurbo(const std::string& cls, const MeshETurbo& x, const MeshETurbo& y, Ctx& ctx)
+{
+  const Grid &gx = x.getGrid(), &gy = y.getGrid();
+  CHECK_EQ_INT(cls, "grid-ndim", gx.getNDim(), gy.getNDim());
+  for (int d = 0; d < gx.getNDim(); d++)
+  {
+    CHECK_EQ_INT(cls, "nx", gx.getNX(d), gy.getNX(d));
+    CHECK_EQ_DBL(cls, "dx", gx.getDX(d), gy.getDX(d));
+    CHECK_EQ_DBL(cls, "x0", gx.getX0(d), gy.getX0(d));
+  }
+  VectorDouble rx = gx.getRotMat(), ry = gy.getRotMat();
+  if (rx.size() != ry.size()) { ctx.fail(cls + ":get:rotmat", "rotation matrices of different sizes"); return false; }
+  for (size_t k = 0; k < rx.size(); k++)
+    if (std::fabs(rx[k] - ry[k]) > 2e-15)
+    {
+      ctx.fail(cls + ":get:rotmat", fmt("rotation matrix element %d: %.17g before, %.17g after reload", (int)k, rx[k], ry[k]));
+      return false;
+    }
+  CHECK_EQ_INT(cls, "mode", x.getMeshIndirect().getMode(), y.getMeshIndirect().getMode());
+  if (!sameVecI(cls, "mesh-mask", x.getMeshIndirect().getRelRanks(), y.getMeshIndirect().getRelRanks(), ctx)) return false;
+  if (!sameVecI(cls, "grid-mask", x.getGridIndirect().getRelRanks(), y.getGridIndirect().getRelRanks(), ctx)) return false;
+  return cmpAMesh(cls, x, y, ctx);
+}
+static bool buildTurbo(MeshETurbo& m, const MeshCase& c)
+{
+  return m.initFromGridByAngles(toVI(c.g.nx), toVD(c.g.dx), toVD(c.g.x0), toVD(c.g.angles), selVD(c.sel), c.polarized, false) == 0;
+}
+static void runMesh(const MeshCase& c, Ctx& ctx)
+{
+  bool ok = false;
+  Hash h;
+  h.add(c.kind).add(c.fo.mode);
+  if (c.kind == 0)
+  {
+    resetGlobals(c.g.ndim());
+    ctx.label("class:MeshETurbo");
+    ctx.label(c.sel.empty() ? "mask:no" : "mask:yes");
+    ctx.label(c.g.rotated() ? "rotated:yes" : "rotated:no");
+    ctx.at("MeshETurbo:build");
+    MeshETurbo x(c.mode);
+    if (!buildTurbo(x, c) || x.getNMeshes() <= 0) { ctx.label("build-refused"); return; }
+    ok = roundTrip<MeshETurbo>("MeshETurbo", "MeshETurbo", "nf_MeshETurbo", x, []() { return new MeshETurbo(); },
+                               [](const std::string& p) { return MeshETurbo::createFromNF(p, false); },
+                               [](const MeshETurbo& a, const MeshETurbo& b, Ctx& cx) { return cmpTurbo("MeshETurbo", a, b, cx); }, c.fo, ctx);
+    ctx.nontrivial(ok && c.g.ndim() >= 2 && (c.g.rotated() || !c.sel.empty()));
+    gridSig(h, c.g);
+    h.add(c.polarized ? 1 : 0).add(c.mode);
+    for (int v : c.sel) h.add(v);
+  }
+  else
+  {
+    resetGlobals(c.ndim);
+    for (double v : c.apices) h.addq(v);
+    for (int v : c.meshes) h.add(v);
+    if (c.kind == 1)
+    {
+      ctx.label("class:MeshEStandard");
+      ctx.label(fmt("ndim:%d", c.ndim));
+      ctx.at("MeshEStandard:build");
+      MeshEStandard x;
+      if (x.reset(c.ndim, c.ncorner(), toVD(c.apices), toVI(c.meshes), true, false) != 0) { ctx.label("build-refused"); return; }
+      ok = roundTrip<MeshEStandard>("MeshEStandard", "MeshEStandard", "nf_MeshEStandard", x, []() { return new MeshEStandard(); },
+                                    [](const std::string& p) { return MeshEStandard::createFromNF(p, false); },
+                                    [](const MeshEStandard& a, const MeshEStandard& b, Ctx& cx) { return cmpAMesh("MeshEStandard", a, b, cx); }, c.fo, ctx);
+    }
+    else
+    {
+      ctx.label("class:MeshSpherical");
+      ctx.at("MeshSpherical:build");
+      MatrixRectangular ap(c.napices(), 2);
+      ap.setValues(toVD(c.apices), true);
+      MatrixInt me(c.nmeshes(), 3);
+      for (int r = 0; r < 3; r++)
+        for (int m = 0; m < c.nmeshes(); m++) me.setValue(m, r, c.meshes[(size_t)(r * c.nmeshes() + m)]);
+      defineDefaultSpace(ESpaceType::SN, 2);
+      std::unique_ptr<MeshSpherical> x(MeshSpherical::create(ap, me));
+      if (!x) { ctx.label("build-refused"); defineDefaultSpace(ESpaceType::RN, 2); return; }
+      ok = roundTrip<MeshSpherical>("MeshSpherical", "MeshSpherical", "nf_MeshSpherical", *x, []() { return new MeshSpherical(); },
+                                    [](const std::string& p) { return MeshSpherical::createFromNF(p, false); },
+                                    [](const MeshSpherical& a, const MeshSpherical& b, Ctx& cx) { return cmpAMesh("MeshSpherical", a, b, cx); }, c.fo, ctx);
+      defineDefaultSpace(ESpaceType::RN, 2);
+    }
+    ctx.nontrivial(ok && c.nmeshes() >= 2);
+  }
+  ctx.sig = h.h;
+}
+VERIF_SUB(mesh, MeshCase, genMesh, runMesh);
+
+// ---------------------------------------------------------------- sub: dbmesh --------------
+struct DbMeshCase
+{
+  MeshCase m; // kind 0: DbMeshTurbo, 1: DbMeshStandard
+  ColumnsCase cols;
+  template<class A> void io(A& a) { a("m", m)("cols", cols); }
+};
+static DbMeshCase genDbMesh()
+{
+  DbMeshCase c;
+  c.m.kind = G::i(0, 1);
+  if (c.m.kind == 0) genTurboPart(c.m, false);
+  else genStdPart(c.m, false);
+  int nech = c.m.kind == 0 ? c.m.g.ntot() : c.m.napices();
+  genColumns(c.cols, nech, c.m.kind == 0 ? 1 : 0, 3, 20);
+  c.cols.rank = false;
+  for (auto& t : c.cols.locType) if (t == 0) t = 1;
+  c.m.fo = genFOpt();
+  return c;
+}
+static void runDbMesh(const DbMeshCase& c, Ctx& ctx)
+{
+  Hash h;
+  h.add(c.m.kind).add(c.m.fo.mode).add(c.cols.ncol());
+  bool ok = false;
+  if (c.m.kind == 0)
+  {
+    resetGlobals(c.m.g.ndim());
+    ctx.label("class:DbMeshTurbo");
+    ctx.at("DbMeshTurbo:build");
+    std::unique_ptr<DbMeshTurbo> x(DbMeshTurbo::create(toVI(c.m.g.nx), toVD(c.m.g.dx), toVD(c.m.g.x0), toVD(c.m.g.angles), ELoadBy::COLUMN,
+                                                        toVD(c.cols.vals), toVS(c.cols.names), VectorString(), c.m.polarized, false));
+    if (!x || x->getSampleNumber() != c.m.g.ntot()) { ctx.label("build-refused"); return; }
+    int first = x->getColumnNumber() - c.cols.ncol();
+    if (first < 0) { ctx.label("build-refused"); return; }
+    applyLocators(x.get(), c.cols, first);
+    auto cmp = [](const DbMeshTurbo& a, const DbMeshTurbo& b, Ctx& cx) {
+      const std::string cls = "DbMeshTurbo";
+      auto& ctx = cx;
+      CHECK_EQ_INT(cls, "napices", a.getNApices(), b.getNApices());
+      CHECK_EQ_INT(cls, "nmeshes", a.getNMeshes(), b.getNMeshes());
+      int nd = a.getNDim();
+      for (int im = 0; im < a.getNMeshes(); im++)
+        for (int r = 0; r <= nd; r++) CHECK_EQ_INT(cls, "apex", a.getApex(im, r), b.getApex(im, r));
+      for (int ia = 0; ia < a.getNApices(); ia++)
+        for (int d = 0; d < nd; d++)
+        {
+          double u = a.getApexCoor(ia, d), v = b.getApexCoor(ia, d);
+          if (!eqv(u, v, 1e-13)) { cx.fail(cls + ":query:apex-coordinate", fmt("apex %d axis %d: %.17g before, %.17g after reload", ia, d, u, v)); return false; }
+        }
+      CHECK_EQ_INT(cls, "consistent", a.isConsistent(), b.isConsistent());
+      return cmpGridPart(cls, a, b, cx) && cmpDbPart(cls, a, b, cx);
+    };
+    ok = roundTrip<DbMeshTurbo>("DbMeshTurbo", "DbMeshTurbo", "nf_DbMeshTurbo", *x, []() { return new DbMeshTurbo(); },
+                                [](const std::string& p) { return DbMeshTurbo::createFromNF(p, false); }, cmp, c.m.fo, ctx);
+    gridSig(h, c.m.g);
+    ctx.nontrivial(ok && c.m.g.ndim() >= 2);
+  }
+  else
+  {
+    resetGlobals(c.m.ndim);
+    ctx.label("class:DbMeshStandard");
+    ctx.at("DbMeshStandard:build");
+    // the table given to the constructor replaces the columns: it holds the coordinates too
+    VectorDouble tab = toVD(c.m.apices);
+    for (double v : c.cols.vals) tab.push_back(v);
+    VectorString names, locs;
+    for (int d = 0; d < c.m.ndim; d++) { names.push_back(fmt("crd%d", d + 1)); locs.push_back(fmt("x%d", d + 1)); }
+    for (auto& n : c.cols.names) { names.push_back(n); locs.push_back("NA"); }
+    std::unique_ptr<DbMeshStandard> x(DbMeshStandard::create(c.m.ndim, c.m.ncorner(), toVD(c.m.apices), toVI(c.m.meshes), ELoadBy::COLUMN, tab, names, locs, false));
+    if (!x || x->getSampleNumber() != c.m.napices()) { ctx.label("build-refused"); return; }
+    int first = x->getColumnNumber() - c.cols.ncol();
+    if (first < 0) { ctx.label("build-refused"); return; }
+    applyLocators(x.get(), c.cols, first);
+    auto cmp = [](const DbMeshStandard& a, const DbMeshStandard& b, Ctx& cx) {
+      const std::string cls = "DbMeshStandard";
+      auto& ctx = cx;
+      CHECK_EQ_INT(cls, "napices", a.getNApices(), b.getNApices());
+      CHECK_EQ_INT(cls, "nmeshes", a.getNMeshes(), b.getNMeshes());
+      int nd = a.getNDim();
+      for (int im = 0; im < a.getNMeshes(); im++)
+        for (int r = 0; r <= nd; r++) CHECK_EQ_INT(cls, "apex", a.getApex(im, r), b.getApex(im, r));
+      for (int ia = 0; ia < a.getNApices(); ia++)
+        for (int d = 0; d < nd; d++) CHECK_EQ_DBL(cls, "apex-coordinate", a.getApexCoor(ia, d), b.getApexCoor(ia, d));
+      CHECK_EQ_INT(cls, "consistent", a.isConsistent(), b.isConsistent());
+      return cmpDbPart(cls, a, b, cx);
+    };
+    ok = roundTrip<DbMeshStandard>("DbMeshStandard", "DbMeshStandard", "nf_DbMeshStandard", *x, []() { return new DbMeshStandard(); },
+                                   [](const std::string& p) { return DbMeshStandard::createFromNF(p, false); }, cmp, c.m.fo, ctx);
+    for (double v : c.m.apices) h.addq(v);
+    for (int v : c.m.meshes) h.add(v);
+    ctx.nontrivial(ok && c.m.nmeshes() >= 2);
+  }
+  ctx.sig = h.h;
+}
+VERIF_SUB(dbmesh, DbMeshCase, genDbMesh, runDbMesh);
 
 VERIF_MAIN()
